@@ -203,7 +203,7 @@ func c12Gen(r *Rand, tier string, emit func(op any)) {
 		nSeq = 60000
 	}
 	for i := 0; i < nSeq; i++ {
-		op := c12Op{K: "seq", Size: Pick(r, []int{1, 2, 3, 4, 5, 7, 8, 16, 16, 64, 64, 100, 1024, 4096, -1})}
+		op := c12Op{K: "seq", Size: Pick(r, []int{1, 2, 3, 4, 5, 7, 8, 16, 16, 64, 64, 100, 1024, 4096, 4097, 5000, 6000, -1})}
 		eff := c12EffSize(op.Size)
 		held := 0 // generator's guess of the buffered amount (only steers the length classes)
 		n := 1 + r.Intn(14)
@@ -229,8 +229,8 @@ func c12Gen(r *Rand, tier string, emit func(op any)) {
 				if l < 0 {
 					l = 0
 				}
-				if l > 10000 {
-					l = 10000
+				if l > 14000 {
+					l = 14000
 				}
 				op.Ops = append(op.Ops, c12W(c12Payload(r, l)))
 				switch {
